@@ -147,7 +147,11 @@ func (e *env) startRunner(dataDir string) {
 	e.ctx, e.cancel = context.WithCancel(context.Background())
 	prp := new(*prunner.PipelineRunner)
 	mk := w.createTaskRunner(prp)
-	pr, err := prunner.NewPipelineRunner(e.ctx, buildDefs(e.sc, e.cur), func(j *prunner.PipelineJob) taskctl.Runner { return mk(j) }, e.store, e.ostore)
+	var ds store.DataStore = e.store
+	if e.sc.Slow {
+		ds = &slowStore{inner: e.store, delay: 70 * time.Millisecond}
+	}
+	pr, err := prunner.NewPipelineRunner(e.ctx, buildDefs(e.sc, e.cur), func(j *prunner.PipelineJob) taskctl.Runner { return mk(j) }, ds, e.ostore)
 	if err != nil {
 		t.Fatal(err)
 	}
@@ -157,6 +161,18 @@ func (e *env) startRunner(dataDir string) {
 	_, e.token, _ = auth.Encode(map[string]interface{}{"sub": "verif"})
 	e.handler = server.NewServer(e.pr, e.ostore, func(h http.Handler) http.Handler { return h }, auth, false)
 	e.shutCancel, e.shutDone = nil, nil
+}
+
+// slowStore: a data store whose Save takes time (a slow disk): a save can still be in flight when later events happen
+type slowStore struct {
+	inner store.DataStore
+	delay time.Duration
+}
+
+func (s *slowStore) Load() (*store.PersistedData, error) { return s.inner.Load() }
+func (s *slowStore) Save(data *store.PersistedData) error {
+	time.Sleep(s.delay)
+	return s.inner.Save(data)
 }
 
 func copyDir(src, dst string) error {
@@ -385,7 +401,8 @@ func (e *env) step(s Step) {
 	case "save":
 		e.pr.SaveToStore()
 	case "longadv":
-		time.Sleep(3100 * time.Millisecond)
+		// the persist interval (3 s) plus the time two writes of a slow store may take
+		time.Sleep(3600 * time.Millisecond)
 	case "restart":
 		e.restart()
 		evk = "Restart"
@@ -401,14 +418,18 @@ func (e *env) step(s Step) {
 		w.st.Shut = "begun"
 		w.st.Phase = "shutdown"
 		w.mu.Unlock()
+		gen, pr, doneCh := e.gen, e.pr, e.shutDone
 		go func() {
-			_ = e.pr.Shutdown(sctx)
+			_ = pr.Shutdown(sctx)
 			w.mu.Lock()
-			w.st.Shut = "returned"
-			w.st.ShutAt = w.nowMs()
-			w.emit(Event{K: "ShutdownRet"})
+			if w.gen == gen {
+				// (the Shutdown of a runner that was abandoned by a restart meanwhile is not an observation of the new runner)
+				w.st.Shut = "returned"
+				w.st.ShutAt = w.nowMs()
+				w.emit(Event{K: "ShutdownRet"})
+			}
 			w.mu.Unlock()
-			close(e.shutDone)
+			close(doneCh)
 		}()
 	case "force":
 		if e.shutCancel != nil {
